@@ -123,6 +123,14 @@ Theorem C16_guard_nonzero : forall q : Q, gen_norm_ok q = true -> ~ (q == 0)%Q.
 Proof. exact gen_norm_ok_nz. Qed.
 Print Assumptions C16_guard_nonzero.
 
+(* the five quantities: which particle attribute each keyword deposits (read from the dispatch in the source) *)
+Theorem C16_quantities :
+  gen_quantity_table = [("energy_density", QAttr "E"); ("number_density", QOne); ("charge_density", QAttr "charge");
+                        ("baryon_density", QAttr "baryon_number"); ("strangeness_density", QAttr "strangeness")]%string
+  /\ gen_quantity_unknown = ValueError.
+Proof. exact quantity_table_spec. Qed.
+Print Assumptions C16_quantities.
+
 (* instances: canonical rationals with the generated guard; reals with any guard that excludes zero *)
 Theorem C16_conserve_Qc :
   forall (n : Z * Z * Z) (vol : Qc) (g : zgrid Qc) (ds : list (dep Qc)), vol <> 0%Qc ->
